@@ -486,3 +486,55 @@ def S4_raster_numbering_is_bijective(nx: int, ny: int, sx: int, sy: int):
     assert 0 <= k and k < ny * nx, "S4.in-range"
     use("div_mul_cancel", nx, sy)
     assert (k - sx) // nx == sy
+
+
+# ---- facts the validator's index-safety proofs use (C02) -------------------------------------------------
+
+
+@lemma
+def subband_dims_nonneg(lw: int, lh: int, cw: int, ch: int, d: int, dh: int, level: int, luma: bool):
+    requires(lw >= 0 and lh >= 0 and cw >= 0 and ch >= 0 and d >= 0 and dh >= 0 and 0 <= level and level <= d + dh)
+    ensures(subband_width(mkstate(lw, lh, cw, ch, d, dh, 1, 1), level, comp(luma)) >= 0)
+    ensures(subband_height(mkstate(lw, lh, cw, ch, d, dh, 1, 1), level, comp(luma)) >= 0)
+    w = lw if luma else cw
+    h = lh if luma else ch
+    sw = pow2(dh + d)
+    sh = pow2(d)
+    use("div_nonneg", w + sw - 1, sw)
+    use("mul_pos", sw, (w + sw - 1) // sw)
+    use("div_nonneg", h + sh - 1, sh)
+    use("mul_pos", sh, (h + sh - 1) // sh)
+    use("pow2_small", dh + d - level + 1)
+    use("div_nonneg", sw * ((w + sw - 1) // sw), sw)
+    use("div_nonneg", sw * ((w + sw - 1) // sw), pow2(dh + d - level + 1))
+    use("div_nonneg", sh * ((h + sh - 1) // sh), sh)
+    use("div_nonneg", sh * ((h + sh - 1) // sh), pow2(dh + d - level + 1))
+
+
+@lemma
+def slice_bounds_in_range(H: int, n: int, s: int):
+    """0 <= (H*s)//n <= (H*(s+1))//n <= H for a slice index 0 <= s < n."""
+    requires(H >= 0 and n >= 1 and 0 <= s and s < n)
+    ensures(0 <= (H * s) // n and (H * s) // n <= (H * (s + 1)) // n and (H * (s + 1)) // n <= H)
+    use("mul_pos", H, s)
+    use("div_nonneg", H * s, n)
+    use("mul_mono", s, s + 1, H)
+    use("mul_comm", H, s)
+    use("mul_comm", H, s + 1)
+    use("div_mono", H * s, H * (s + 1), n)
+    use("mul_mono", s + 1, n, H)
+    use("mul_comm", H, n)
+    use("div_mono", H * (s + 1), H * n, n)
+    use("div_mul_cancel", n, H)
+    use("mul_comm", n, H)
+
+
+@specfun
+def SBH(lw, lh, cw, ch, d, dh, L, luma):
+    """subband_height as a function of the six integers it reads (uninterpreted in VCs unless unfolded)."""
+    return subband_height(mkstate(lw, lh, cw, ch, d, dh, 1, 1), L, comp(luma))
+
+
+@specfun
+def SBW(lw, lh, cw, ch, d, dh, L, luma):
+    return subband_width(mkstate(lw, lh, cw, ch, d, dh, 1, 1), L, comp(luma))
